@@ -145,6 +145,13 @@ theorem sort_ofRows (rows : List (List Int)) :
   rw [h.1]
   simp [RA.ofRows, List.length_flatten, Function.comp_def]
 
+theorem unique_ofRows (rows : List (List Int)) :
+    (uniqueRows (fun (p q : Int) => decide (p ≤ q)) (fun p q => p != q) (RA.ofRows rows)).map (fun r => RA.ofRows r.1) =
+      some (RA.ofRows (rows.map (fun row =>
+        (Spec.dedupCounts (fun (p q : Int) => p != q) (row.mergeSort (fun p q => decide (p ≤ q)))).map (·.1)))) := by
+  rw [Props.C07.C07_unique_int]
+  rfl
+
 theorem cumsum_ofRows (rows : List (List Int)) :
     cumsumRows (RA.ofRows rows) = RA.ofRows (rows.map Spec.prefixSums) := by
   refine eq_ofRows_of _ rows _ (Props.C07.C07_scan_shape rows).1 ?_ (Props.C07.C07_cumsum rows)
